@@ -635,6 +635,16 @@ func (g *Gen) havocLoc(st *State, sc *SCtx, m Expr) error {
 					g.heapSet(st, n, g.universe[n], g.fresh("hv:"+n, g.universe[n]))
 				}
 			}
+			// a field whose address circulates as a pointer of this type may be
+			// written through it
+			for _, in := range g.iptrs {
+				if typeStr(in.ElemT) == typeStr(ty) {
+					if fs, ok := g.universe[in.Comp]; ok {
+						fh := g.heapGet(st, in.Comp, fs)
+						g.heapSet(st, in.Comp, fs, Store(fh, in.Owner, g.fresh("hv:iptr", fs.Elem)))
+					}
+				}
+			}
 			return nil
 		}
 		if id, ok := call.Fun.(*EIdent); ok && id.Name == "fields" && len(call.Args) == 1 && strings.HasPrefix(ExprString(call.Args[0]), "map[") {
